@@ -86,6 +86,11 @@ func (d *Dialer) Dials() int {
 
 // Next waits for the next established connection (nil when the ceiling expired).
 func (d *Dialer) Next(ceiling time.Duration) *Link {
+	select { // what is already there wins over an expired (short) ceiling
+	case l := <-d.links:
+		return l
+	default:
+	}
 	select {
 	case l := <-d.links:
 		return l
